@@ -14,6 +14,7 @@ for d in seeded/*/; do
     prop=$(python3 -c "import json;print(json.load(open('$d/meta.json'))['breaks_property'])")
     r=$(tools/trymutant.sh "$PWD/$d/patch.diff" "$prop" 2>&1 | grep "^RESULT" | head -1)
     case "$r" in
+      *DOES-NOT-APPLY*|*APPLY-FAILED*) echo "SWEEP $id stale: the patch no longer applies (a later fix: commit rewrote lines it touches); it was judged against the /repo of its wave" ;;
       *"exit=0"*) echo "SWEEP $id quiet-as-expected ($prop)" ;;
       *) echo "SWEEP $id FALSE-ALARM by $prop :: $r" ;;
     esac
@@ -23,6 +24,7 @@ for d in seeded/*/; do
   senv=$(python3 -c "import json;print(json.load(open('$d/meta.json')).get('sweep_env',''))")
   r=$(env $senv tools/trymutant.sh "$PWD/$d/patch.diff" "$prop" 2>&1 | grep "^RESULT" | head -1)
   case "$r" in
+    *DOES-NOT-APPLY*|*APPLY-FAILED*) echo "SWEEP $id STALE-PATCH (re-base it): $r" ;;
     *"exit=1"*VIOLATION*) echo "SWEEP $id caught-by $prop" ;;
     *) echo "SWEEP $id NOT-CAUGHT by $prop :: $r" ;;
   esac
